@@ -18,7 +18,7 @@ CLAIMS["C08"] = (
     "the documented value; plus prox-image stationarity, the converse for convex penalties, inf at positivity violations, "
     "and zero value of unpenalised features.",
     "Trusted: mc/ref/pen.py closed-form one-sided derivatives (self-tested). generalized_support is not judged (it is not "
-    "part of the statement). No claim outside the alphabets.",
+    "part of the statement). No claim outside the alphabets. Added: the solvers' fixed-point scores (dist_fix_point_cd / _bcd / multitask _bcd) on every ordered working set vs the prox residual.",
     "DESIGN.md §4 C08")
 CLAIMS["C06"] = (
     "exploration",
@@ -29,7 +29,7 @@ CLAIMS["C06"] = (
     "729 in thorough), full-rank / zero-column / rescaled designs, all survival patterns of <=3 samples (n=4 in thorough), "
     "and a grid of coefficient vectors.",
     "Trusted: mc/ref/loss.py (documented formulas; derivatives self-tested numerically). Points with |Xw| > 30 (float64 "
-    "overflow regime) are outside the alphabet. Cox/SqrtQuadratic raw_hessian are bounds and belong to C09.",
+    "overflow regime) are outside the alphabet. Cox/SqrtQuadratic raw_hessian are bounds and belong to C09. Added: accessor histories (engine H) - a live compiled datafit must answer every single-accessor probe like a fresh object after re-initialisation / other accessor calls; prox and prox_conjugate of the primal-dual datafits vs brute force and Moreau's identity.",
     "DESIGN.md §4 C06")
 CLAIMS["C09"] = (
     "exploration",
@@ -51,7 +51,7 @@ CLAIMS["C01"] = (
     "from (X, y, w) alone must be <= tol. Plus the full product of 31 zero-weight patterns x 3^5 warm starts x p0 x "
     "epochs on a 6x5 working-set problem, with the model-fit buffer checked against X w + b.",
     "Trusted: mc/ref/cert.py, mc/ref/loss.py, mc/ref/pen.py (self-tested), numpy. Bounded: n<=6, p<=5, listed alphabets; "
-    "non-convex fixed-point residuals carry the 1e-7 accuracy of the brute-force reference prox.",
+    "non-convex fixed-point residuals carry the 1e-7 accuracy of the brute-force reference prox. Added after seeded changes: a liveness column (every zero-weight pattern of the working-set problem must be solved to tolerance within 60 working-set iterations).",
     "DESIGN.md §4 C01")
 CLAIMS["C03"] = (
     "model_checking",
@@ -62,7 +62,7 @@ CLAIMS["C03"] = (
     "prefix edge and never above the start. Budgets straddle both Anderson extrapolation periods. IterativeReweightedL1 "
     "histories for L0_5, L2_3, log-sum with 1..6 reweightings must be non-increasing and end at the true objective.",
     "Trusted: mc/ref objective. Prefix edges (k,e)->(k+1,e) are validated by obj_out prefix equality; (1,e)->(1,e+1) rely "
-    "on determinism (RNG seeded from the data only). Non-convex penalties only in their well-posed step range.",
+    "on determinism (RNG seeded from the data only). Non-convex penalties only in their well-posed step range. Added: the extrapolating solvers on a fixed family of AR(1)-correlated 5x6 / 8x12 designs (p0 in {1,2,3}, columns max_iter 1..7) with the model-fit buffer compared with X w at every stopping point.",
     "DESIGN.md §4 C03")
 CLAIMS["C04"] = (
     "model_checking",
@@ -73,7 +73,7 @@ CLAIMS["C04"] = (
     "stopping point of the rectangle (budgets straddling both extrapolation periods) the coefficients must satisfy the "
     "constraint exactly and all numbers be finite; positive=True estimators and LinearSVC.dual_coef_ under truncated budgets.",
     "Bounded alphabets. Poisson/Gamma/Cox are not run on 2^10-rescaled designs (exp leaves float64). Budget 0 from an "
-    "infeasible start is exempt (start returned untouched). Known finding: prox-Newton solvers from infeasible starts.",
+    "infeasible start is exempt (start returned untouched). Known finding: prox-Newton solvers from infeasible starts. Added: WeightedMCPenalty(positive=True) with zero weights; weighted L1+ on CSC.",
     "DESIGN.md §4 C04")
 CLAIMS["C17"] = (
     "model_checking",
@@ -84,8 +84,7 @@ CLAIMS["C17"] = (
     "of the longest run equal the objective of the point returned with budget i+1, and on tolerance stops the returned "
     "stopping value equal the reference violation of the returned point; estimators' n_iter_ must be within budget, "
     "consistent with stop_crit_, and reproduce the fit when used as max_iter.",
-    "Trusted: mc/ref objective and certificate. LBFGS / PDCD_WS exempt from the stop-value clause (other units). Known "
-    "finding: FISTA's stale-gradient stopping value.",
+    "Trusted: mc/ref objective and certificate. LBFGS / PDCD_WS exempt from the stop-value clause (other units). FISTA's stale-gradient stopping value was repaired in /repo (47f5502). Added: above-critical strength column, centred-task target.",
     "DESIGN.md §4 C17")
 CLAIMS["C13"] = (
     "exploration",
@@ -97,7 +96,7 @@ CLAIMS["C13"] = (
     "certificate; a compiled-code typing/index/arithmetic error, NaN/inf, worker death or CPU-horizon overrun is a violation "
     "attributed to the cell.",
     "One problem per data kind (6x3). 'Explained' is decided by message patterns listed in the driver plus hasattr "
-    "confirmation of the named attribute.",
+    "confirmation of the named attribute. Known finding (thorough tier): ProxNewton NaN on saturated unpenalised positive logistic problems.",
     "DESIGN.md §4 C13")
 CLAIMS["C20"] = (
     "exploration",
@@ -106,7 +105,7 @@ CLAIMS["C20"] = (
     "layouts x intercept is executed twice, in a worker started with NUMBA_BOUNDSCHECK=1 and in an unchecked one: the checked "
     "run must not raise IndexError or a broadcasting error and both runs must return the same outcome and the same result to "
     "1e-10, i.e. no result depends on memory outside the arrays passed in.",
-    "NUMBA_BOUNDSCHECK is numba's switch, not a hook. One problem per data kind and shape.",
+    "NUMBA_BOUNDSCHECK is numba's switch, not a hook. One problem per data kind and shape. Added: working sets of one feature for every penalty, positivity variants, zero last column, 5-feature warm starts supported on one feature.",
     "DESIGN.md §4 C20")
 CLAIMS["C19"] = (
     "exploration",
@@ -118,7 +117,7 @@ CLAIMS["C19"] = (
     "has exact zeros on penalised all-zero columns whenever convergence is claimed; default-budget runs are watched by a CPU "
     "horizon.",
     "Exact zeros are demanded from warm starts only for convex separable penalties (block penalties shrink geometrically, flat "
-    "non-convex penalties are stationary anywhere beyond gamma*alpha). Poisson/Gamma/Cox not run on rescaled designs.",
+    "non-convex penalties are stationary anywhere beyond gamma*alpha). Poisson/Gamma/Cox not run on rescaled designs. Added: all-zero columns stored as explicit zeros in CSC; a large-count Poisson target.",
     "DESIGN.md §4 C19")
 CLAIMS["C05"] = (
     "model_checking",
@@ -129,7 +128,7 @@ CLAIMS["C05"] = (
     "(b) path() for every permutation of a 3-value grid, singleton / repeated / above-critical grids, with and without w_init; "
     "(c) estimator histories fit -> (set_params -> fit)^d with warm_start=True over all parameter moves. After every transition: "
     "certificate of the current problem, caller's Xw == X w + b, optimality-gap theorem against the cold start / a fresh estimator.",
-    "Trusted: mc/ref certificate and objective. Depth-bounded (closure is reported when reached). Gap theorem only for convex problems.",
+    "Trusted: mc/ref certificate and objective. Depth-bounded (closure is reported when reached). Gap theorem only for convex problems. Added: SqrtLasso.path on every grid order; multitask path starts with first-task-only-zero rows; data moves (refit on another target) in the estimator histories.",
     "DESIGN.md §4 C05")
 CLAIMS["C18"] = (
     "model_checking",
@@ -139,7 +138,7 @@ CLAIMS["C18"] = (
     "bytes of X (incl. CSC buffers), y, weights, groups must be unchanged, and the attributes produced by fit(E params, D) must be "
     "bit-identical under every history and identical to a single fit performed in a fresh worker process (one process per "
     "reference fit).",
-    "The harness owns the only RNG (power method) by reseeding before every operation. Estimator budgets are capped (tol 1e-6).",
+    "The harness owns the only RNG (power method) by reseeding before every operation. Estimator budgets are capped (tol 1e-6). Added: PDCD_WS with a user-supplied dual_init array in the solver-reuse BFS.",
     "DESIGN.md §4 C18")
 CLAIMS["C11"] = (
     "exploration",
@@ -150,7 +149,7 @@ CLAIMS["C11"] = (
     "coefficients and intercept must be stationary for the objective written from the docstring; LinearSVC.coef_ must be the "
     "primal image of dual_coef_; convex cases must match scikit-learn's optimum through the optimality-gap theorem.",
     "Trusted: mc/estim.py documented_problem (hand-written from docstrings), mc/ref certificate, scikit-learn as comparison point "
-    "(the gap theorem is valid against any point).",
+    "(the gap theorem is valid against any point). Added: liveness clause (a convex estimator on a tiny problem must reach its tolerance within the harness budget; not for the L-BFGS route).",
     "DESIGN.md §4 C11")
 CLAIMS["C12"] = (
     "exploration",
@@ -161,7 +160,7 @@ CLAIMS["C12"] = (
     "points), decision values invariant under relabelling up to the induced permutation / sign, and one-vs-rest row k equal to "
     "the separate binary fit of class k vs rest, intercept included.",
     "Tolerances 1e-6 on decision values (fits at tol 1e-10); predictions compared only where the margin exceeds 1e-5. Known "
-    "finding: GeneralizedLinearEstimator cannot fit more than two classes.",
+    "finding: GeneralizedLinearEstimator cannot fit more than two classes. Added: the same fit from CSR input gives the same decision values; a strong L1 strength (intercept-only one-vs-rest rows); GeneralizedLinearEstimator multiclass is now fitted and judged like the others.",
     "DESIGN.md §4 C12")
 CLAIMS["C10"] = (
     "exploration",
@@ -173,7 +172,7 @@ CLAIMS["C10"] = (
     "representation must be refused by AttributeError / ValueError / TypeError naming it - a compiled-code error or a dead worker is "
     "a violation.",
     "float32 containers are fitted at tol=1e-5 (a tolerance below single precision is unattainable and lets rounding drift accumulate). "
-    "Known finding: GroupLasso / MultiTaskLasso on float32 data.",
+    "Known finding: GroupLasso / MultiTaskLasso on float32 data. Added: warm-started solves at solver level and weighted penalties for every solver.",
     "DESIGN.md §4 C10")
 CLAIMS["C16"] = (
     "exploration",
@@ -183,7 +182,7 @@ CLAIMS["C16"] = (
     "variants x dense/CSC: the library's alpha_max evaluated at the reference null model must be critical - at alpha_max(1+1e-8) the "
     "penalised coefficients are exactly 0 and intercept / unpenalised features equal the reference null model, at "
     "alpha_max(1-1e-3) some penalised coefficient is non-zero.",
-    "Reference null model: closed-form least squares / Newton. Clauses apply when the solver reports stop_crit <= 1e-10.",
+    "Reference null model: closed-form least squares / Newton. Clauses apply when the solver reports stop_crit <= 1e-10. Added: alpha = 10 alpha_max, unbalanced labels, a centred task next to shifted ones; MCP only in its (jointly) well-posed range.",
     "DESIGN.md §4 C16")
 CLAIMS["C02"] = (
     "exploration",
@@ -194,8 +193,8 @@ CLAIMS["C02"] = (
     "solve the same documented objective: each converged route's recomputed violation must be within its margin, and F(w) - F(v) "
     "<= violation * ||w - v||_1 must hold against the reference solution and every other route; coefficients must agree when "
     "the problem is strongly convex.",
-    "The gap inequality is a theorem for any comparison point, so inexact references cannot cause alarms. Margins: 1 (C01 solvers), "
-    "10 (FISTA). Non-smooth datafits compared by objective value (1e-6).",
+    "The gap inequality is a theorem for any comparison point, so inexact references cannot cause alarms. Margins: 1 (C01 solvers and FISTA, whose "
+    "stale-gradient criterion was repaired). SVC: primal image compared with liblinear one-sidedly plus a duality-gap bound. Non-smooth datafits compared by objective value (1e-6).",
     "DESIGN.md §4 C02")
 CLAIMS["C14"] = (
     "exploration",
